@@ -530,6 +530,10 @@ pub fn define(name: &str, sort: &str, body: &str) {
 pub fn assume(t: &str) {
     with(|e| e.assume(t))
 }
+/// per-query solver timeout (ms); an `unknown` answer makes the instance inconclusive, never a pass
+pub fn set_timeout_ms(ms: u64) {
+    with(|e| e.solver.send(&format!("(set-option :timeout {})", ms)))
+}
 pub fn term(s: String) -> u32 {
     with(|e| e.term(s))
 }
